@@ -20,7 +20,7 @@ STORE = os.path.join(HERE, 'reviewed', 'functions.json')
 def main():
     rel = sys.argv[1]
     wanted = sys.argv[2:]
-    repo = Repo()
+    repo = Repo(canonical=False)
     m = repo.mod(rel)
     os.makedirs(os.path.dirname(STORE), exist_ok=True)
     data = {}
